@@ -367,3 +367,27 @@ Theorem version_round_half_up_refuted :
   exists v, version_milli_half_up v <> version_milli_string v /\
             version_of_milli (version_milli_half_up v) <> version_of_milli (version_milli_string v).
 Proof. exact version_round_ties_refuted. Qed.
+
+(* ================================================================== *)
+(* translator tie                                                      *)
+
+(* The bit masks, version numbers and thresholds the models above use are the
+   ones the translator found in the Go sources on this run (head.Read,
+   head.Info.Encode, os2.Read, os2.Info.Encode, maxp.Read, hmtx.Decode), in
+   source order.  A change of any of them in the code breaks this theorem. *)
+Theorem model_constants_match_source :
+  head_read_flag_masks = [1; 2; 4; 16]%N /\
+  head_read_macstyle_masks = [1; 2; 16; 32; 64]%N /\
+  head_read_version = [65536]%N /\ head_read_magic = [head_magic] /\
+  head_encode_flag_masks = [1; 2; 4; 16; 8; 2048; 4096; 8192]%N /\
+  head_encode_macstyle_masks = [1; 2; 16; 32; 64]%N /\
+  os2_read_perm_masks = [8; 4; 2; 256; 512]%N /\ os2_read_perm_legacy_mask = [15]%N /\
+  os2_read_sel_masks = [96; 65; 64; 512]%N /\ os2_read_sel_legacy_mask = [127]%N /\
+  os2_read_bold_value = [32]%N /\ os2_read_italic_value = [1]%N /\
+  os2_read_nonplane0_last = [65535]%N /\
+  os2_read_max_version = [5]%N /\ os2_read_version_lt = [3; 2]%N /\ os2_read_version_le = [3]%N /\
+  os2_encode_perm_masks = [2; 4; 8; 256; 512]%N /\ os2_encode_sel_masks = [64; 1; 32; 512; 128]%N /\
+  maxp_read_versions = [20480; 65536]%N /\
+  hmtx_decode_version = [65536]%N /\ hmtx_decode_format = [0]%N.
+Proof. repeat split; reflexivity. Qed.
+Print Assumptions model_constants_match_source.
